@@ -26,9 +26,10 @@ META = {
     "bounds": {"quick": "3 records, node universe of 6 (one unaligned, one visited twice), query lists of length <= 2 (all) and 3 (sampled)",
                "thorough": "all query lists of length <= 3"},
     "out": ["> 3 records", "> 3 queried nodes", "nodes that are not in the graph"],
-    "assumptions": ["model file system with offset cookies; pickle round trip is the identity", "GAF reader stub for read_line(offset)"],
+    "assumptions": ["model file system with offset cookies; pickle round trip is the identity", "GAF reader stub for read_line(offset) except in the nodes-real-reader/* harnesses"],
 }
 META["explanation"] += '  Segment names are mixed (s0, s1-alt, s1.2, b#0|x) and every second read name carries a comment after a blank (the documented cut).  tokens/cli/index.py: the path tokenizers of index.py decided as languages by z3.'
+META["explanation"] += '  nodes-real-reader/* read the records through the real GAF class (GAF.__init__, read_line, parse_gaf_line) instead of the reader stub; nodes/bare/* use a record given as a bare contig with symbolic path start/end; no-final-newline variants; the replay of compressed variants also runs a multi-block BGZF file.'
 
 # record menu: r0 visits s0 twice; nobody aligns to s2
 WALKS = [">s0>s1>s0", ">s1>a1", "<b0<s1"]
@@ -63,6 +64,10 @@ def harnesses(tier):
         for gz in (0, 1):
             hs.append({"id": "nodes-real-reader/%s/%s/asis/q1" % (form, "bgzf" if gz else "text"),
                        "params": {"kind": "nodes", "form": form, "gz": gz, "fmt": None, "qlen": 1, "real_reader": True, "nonl": not gz}, "timeout": 900})
+    # records given as a bare contig name with symbolic path start/end (the nodes under [start, end) are the ones traversed)
+    for gz in (0, 1):
+        hs.append({"id": "nodes/bare/%s/asis/q1" % ("bgzf" if gz else "text"), "params": {"kind": "nodes", "form": "bare", "gz": gz, "fmt": None, "qlen": 1, "walks": ["chr1"]},
+                   "timeout": 900})
     hs.append({"id": "noindex/error", "params": {"kind": "noindex", "form": "unstable", "gz": 0}, "timeout": 300})
     for form in ("unstable", "stable"):
         for gz in (0, 1):
@@ -97,12 +102,13 @@ def build(params):
     if params.get("kind") == "tokens":
         return Direct(lambda: tokfam.run(params))
     form = params["form"]
-    n = len(WALKS)
+    walks = params.get("walks") or WALKS
+    n = len(walks)
     args = []
     pre = []
-    for i, w in enumerate(WALKS):
+    for i, w in enumerate(walks):
         args += [("ps%d" % i, "int"), ("pe%d" % i, "int")]
-        pre.append("0 <= ps%d < pe%d <= %d" % (i, i, F.walk_len(F.parse_walk(w))))
+        pre.append("0 <= ps%d < pe%d <= %d" % (i, i, F.walk_len(F.parse_walk(w)) if form != "bare" else 30))
     args += [("c%d" % i, "int") for i in range(n + 1)]
     pre.append(" < ".join(["0 <= c0"] + ["c%d" % i for i in range(1, n + 1)]))
     if params["kind"] == "nodes":
@@ -119,7 +125,7 @@ def build(params):
         e = stubs.env()
         nums = [(a[2 * i], a[2 * i + 1]) for i in range(n)]
         cookies = list(a[2 * n:3 * n + 1])
-        recs = F.records_for(form, WALKS, nums)
+        recs = F.records_for(form, walks, nums)
         F.GFA_ORDER[0] = list(reversed(list(F.LAY))) if params.get("revorder") else None
         if params["kind"] == "noindex":
             # no index next to the GAF and none given: a user-level error, not an internal one
@@ -146,7 +152,7 @@ def build(params):
                     return "whole-file view changed record %d" % i
             return None
         query = [pick(a[3 * n + 1 + i], UNIVERSE) for i in range(params["qlen"])]
-        want = [i for i, w in enumerate(WALKS) if any(nn in query for _, nn in F.parse_walk(w))]
+        want = [i for i, r in enumerate(recs) if any(nn in query for nn in F.expected_nodes(r))]
         fmt = None
         if params["fmt"]:
             fmt = "stable" if form == "unstable" else "unstable"
@@ -188,7 +194,8 @@ def replay(params, model, wd):
     from gaftools.cli import CommandLineError
 
     a = model["args"]
-    n = len(WALKS)
+    walks = params.get("walks") or WALKS
+    n = len(walks)
     form = params["form"]
     if params["kind"] == "noindex":
         recs0 = F.records_for(form, WALKS, [(a[2 * i], a[2 * i + 1]) for i in range(n)])
@@ -201,7 +208,7 @@ def replay(params, model, wd):
             return {"reproduced": True, "key": "C04:noindex:%s" % type(e).__name__, "what": "view -n without index: %r" % (e,)}
         return {"reproduced": True, "key": "C04:noindex:silent", "what": "view -n without an index returned normally"}
     nums = [(a[2 * i], a[2 * i + 1]) for i in range(n)]
-    recs = F.records_for(form, WALKS, nums)
+    recs = F.records_for(form, walks, nums)
     F.GFA_ORDER[0] = list(reversed(list(F.LAY))) if params.get("revorder") else None
     F.NONL[0] = bool(params.get("nonl"))
     gfa, gaf, lines = F.write_real(wd, recs, gz=bool(params["gz"]))
@@ -222,7 +229,7 @@ def replay(params, model, wd):
         bad = got != lines and got != [F.cut_name(l) for l in lines]
         return {"reproduced": bad, "key": "C04:whole-file", "what": "view without selection wrote %r" % (got,), "files": files}
     query = [UNIVERSE[a[3 * n + 1 + i]] for i in range(params["qlen"])]
-    want = [i for i, w in enumerate(WALKS) if any(nn in query for _, nn in F.parse_walk(w))]
+    want = [i for i, r in enumerate(recs) if any(nn in query for nn in F.expected_nodes(r))]
     fmt = None
     if params["fmt"]:
         fmt = "stable" if form == "unstable" else "unstable"
@@ -238,7 +245,7 @@ def replay(params, model, wd):
     gc.collect()
     got = open(out).read().splitlines() if os.path.exists(out) else []
     files.update(query=query, output=got, result=res)
-    unaligned = [q for q in query if not any(q in [nn for _, nn in F.parse_walk(w)] for w in WALKS)]
+    unaligned = [q for q in query if not any(q in F.expected_nodes(r) for r in recs)]
     if res.startswith("error"):
         return {"reproduced": True, "key": "C04:internal-error:%s:%s" % (res.split(":")[1], "unaligned-node" if unaligned else "aligned"),
                 "what": "view -n %s: %s" % (" -n ".join(query), res), "files": files}
